@@ -113,6 +113,9 @@ func init() {
 	mutant(&Mutant{Name: "c09-nullish-fallback-grouped-too-low", Property: "C09", File: "js/util.go",
 		Old: "groupExpr(left, binaryRightPrecMap[js.NullishToken])}, true", New: "groupExpr(left, js.OpCoalesce)}, true",
 		Rule: "R09.18", Construct: "right operand of a constructed js.NullishToken"})
+	mutant(&Mutant{Name: "c09-script-end-tag-matched-case-sensitively", Property: "C09", File: "js/util.go",
+		Old: "return 7 <= len(b) && b[0] == '/' && bytes.EqualFold(b[1:7], []byte(\"script\"))", New: "return 7 <= len(b) && b[0] == '/' && bytes.Equal(b[1:7], []byte(\"script\"))",
+		Rule: "R09.20", Construct: "end tag recognised whatever its case and tail"})
 	mutant(&Mutant{Name: "c09-class-field-no-semicolon", Property: "C09", File: "js/js.go",
 		Old: "\t\t\tif item.Init != nil {\n\t\t\t\tm.write(equalBytes)\n\t\t\t\tm.minifyExpr(item.Init, js.OpAssign)\n\t\t\t}\n\t\t\tm.requireSemicolon()\n", New: "\t\t\tif item.Init != nil {\n\t\t\t\tm.write(equalBytes)\n\t\t\t\tm.minifyExpr(item.Init, js.OpAssign)\n\t\t\t\tm.requireSemicolon()\n\t\t\t}\n",
 		Rule: "R09.1", Construct: "class field"})
@@ -436,6 +439,7 @@ func runC09(c *Ctx) {
 		c.r0912(pk)
 		c.r0915(pk)
 		c.r0918(pk)
+		c.r0920(pk, "R09.20")
 	}
 	// a JSON number without its leading zero (`.5`) is not JSON
 	// … and a JSON string that is rewritten can end the script element it is embedded in (`<\/script>` → `</script>`)
